@@ -98,6 +98,100 @@ MUTATORS = {'append', 'extend', 'insert', 'pop', 'remove', 'clear', 'update', 'p
 VALUE_CLASSES = {'Transaction', 'Order', 'PortfolioEvent', 'Position', 'SimulationEvent', 'Equity', 'Cash'}
 
 
+def _lifter(proj):
+    by_last = {}
+    for chain, (cname, pname) in proj.items():
+        by_last.setdefault(chain[-1], []).append((chain, cname, pname))
+
+    def f(z):
+        if z[0] == 'attr' and z[2] in by_last:
+            for chain, cname, pname in by_last[z[2]]:
+                x, ok = z, True
+                for fld in reversed(chain):
+                    if x[0] == 'attr' and x[2] == fld:
+                        x = x[1]
+                    else:
+                        ok = False
+                        break
+                if ok and not (x[0] == 'new' and x[1] != cname):
+                    return ('attr', x, pname)
+        if z[0] == 'new':
+            extra = []
+            have = {k for k, _ in z[2]}
+            for chain, (cname, pname) in proj.items():
+                if cname != z[1] or pname in have:
+                    continue
+                v = z
+                for fld in chain:
+                    v = dict(v[2]).get(fld) if (v is not None and v[0] == 'new') else None
+                if v is not None:
+                    extra.append((pname, v))
+            if extra:
+                return ('new', z[1], tuple(sorted(tuple(z[2]) + tuple(extra))))
+        return None
+    return f
+
+
+def lift_path(p, proj, _f=None):
+    """rewrite every stored location that a property projects (self._bought.quantity) into the property it stands for (self.buy_quantity), throughout a path summary"""
+    f = _f or _lifter(proj)
+    L = lambda t: T.replace(t, f) if isinstance(t, tuple) and t and isinstance(t[0], str) else t
+
+    def lift_events(evs):
+        out_ = []
+        for e in evs:
+            out_.append(e)
+            if e.d.get('@lifted'):
+                out_.extend(e.d.get('@derived') or ())
+                continue
+            e.d['@lifted'] = True
+            if e.kind == 'write' and e.d.get('loc') is not None and e.d['loc'][0] == 'attr' and e.d.get('value') is not None and e.d['value'][0] == 'new':
+                # a whole sub-object stored (self._bought = _SideBook(q, avg, com)): that writes every logical field projected into it
+                der = []
+                for chain, (cname, pname) in proj.items():
+                    if len(chain) >= 2 and chain[0] == e.d['loc'][2]:
+                        v = e.d['value']
+                        for fld in chain[1:]:
+                            v = dict(v[2]).get(fld) if (v is not None and v[0] == 'new') else None
+                        if v is not None:
+                            d2 = dict(e.d)
+                            d2.update(loc=('attr', e.d['loc'][1], pname), value=L(v), old=None, delta=None)
+                            d2['@lifted'] = True
+                            d2.pop('@derived', None)
+                            der.append(Ev('write', **d2))
+                e.d['@derived'] = tuple(der)
+                out_.extend(der)
+            for k, v in list(e.d.items()):
+                if k in ('node', '@lifted'):
+                    continue
+                if k in ('paths', 'all_paths') and isinstance(v, (list, tuple)):
+                    for q in v:
+                        lift_path(q, proj, f)
+                elif k == 'events' and isinstance(v, (list, tuple)):
+                    e.d[k] = lift_events(v)
+                elif isinstance(v, dict):
+                    e.d[k] = {kk: L(vv) for kk, vv in v.items()}
+                elif isinstance(v, tuple) and v and isinstance(v[0], str):
+                    e.d[k] = L(v)
+        return tuple(out_)
+    if getattr(p, '_lifted', False):
+        return
+    p._lifted = True
+    st = p.state
+    if p.value is not None:
+        p.value = L(p.value)
+    st.conds = tuple((L(c), v, s) for c, v, s in st.conds)
+    p.conds = st.conds
+    st.events = lift_events(st.events)
+    p.events = st.events
+    st.heap = {L(k): L(v) for k, v in st.heap.items()}
+    p.heap = st.heap
+    st.env = {k: L(v) for k, v in st.env.items()}
+    p.env = st.env
+    if getattr(p, 'local_env', None) is not None:
+        p.local_env = st.env
+
+
 def _writes_self(fn):
     """fn assigns, deletes or grows in place an attribute of self (directly)"""
     r = getattr(fn, '_writes_self', None)
@@ -136,6 +230,8 @@ def default_policy(caller, callee, depth):
         return True
     if callee.name.startswith('_') and not callee.name.startswith('__'):
         return True
+    if callee.cls is not None and callee.cls.name.startswith('_') and not callee.name.startswith('__') and caller is not None and callee.path == caller.path:
+        return True            # a method of a private helper class of the caller's own module: an implementation detail like a private function
     if callee.cls is not None and (any(ast.unparse(d.func if isinstance(d, ast.Call) else d).split('.')[-1] == 'dataclass' for d in callee.cls.node.decorator_list)
                                    or any(b.split('.')[-1] == 'NamedTuple' for b in callee.cls.base_names)) and not callee.name.startswith('__') \
             and not _writes_self(callee):
@@ -253,6 +349,9 @@ class SymEx:
             out.append(p)
         for p in out:
             p.outer_env = outer_env
+        if not self.frames and self.M.projections():
+            for p in out:
+                lift_path(p, self.M.projections())
         return out
 
     def _resolve_dyn(self, call_node, st):
@@ -606,7 +705,13 @@ class SymEx:
         k = T.tkey(t)
         if k in st.decided:
             return [(st, st.decided[k])]
-        b = self.oracle(t, st) if self.oracle else None
+        if self.oracle and self.M.projections():
+            # the oracle speaks about logical fields: show it the test with stored locations lifted to the properties that project them
+            if getattr(self, '_lift_f', None) is None:
+                self._lift_f = _lifter(self.M.projections())
+            b = self.oracle(T.replace(t, self._lift_f), st)
+        else:
+            b = self.oracle(t, st) if self.oracle else None
         site = self.site(node)
         if b is not None:
             x = st.copy()
